@@ -273,7 +273,10 @@ class SumAggregator:
                 )
                 new_terms = list(elem.terms)
                 new_terms[0] = BinaryOperation(LOC, BinaryOperator.Minus, elem.terms[0], PREV)
-                var_global_flat_without_anon = [Function(LOC, "none", [], False) if x.name == "_" else x for x in var_global_flat]
+                var_global_flat_without_anon = [
+                    Function(LOC, "none", [], False) if x.ast_type == ASTType.Variable and x.name == "_" else x
+                    for x in var_global_flat
+                ]
                 new_terms.append(
                     Function(LOC, next_anotated_pred.name, var_global_flat_without_anon + [PREV, var_l], False)
                 )
@@ -374,7 +377,10 @@ class SumAggregator:
         if minimize.weight.ast_type != ASTType.Variable:
             weight = UnaryOperation(LOC, UnaryOperator.Minus, weight)
         terms: list[AST] = list(minimize.terms)
-        var_global_flat_without_anon = [Function(LOC, "none", [], False) if x.name == "_" else x for x in var_global_flat]
+        var_global_flat_without_anon = [
+            Function(LOC, "none", [], False) if x.ast_type == ASTType.Variable and x.name == "_" else x
+            for x in var_global_flat
+        ]
         terms.append(Function(LOC, next_anotated_pred.name, var_global_flat_without_anon + [PREV, var_l], False))
         prg.append(minimize.update(weight=weight, terms=terms, body=new_condition))
         new_condition = list(old_condition)
